@@ -260,7 +260,7 @@ class Gen:
         kinds = ['assign'] * 4 + ['print'] * 3 + ['aug'] * 2 + ['unpack', 'substore', 'if', 'if', 'for', 'for', 'while',
                  'def', 'def', 'class', 'walrus', 'import', 'dictops', 'exprstmt', 'multi', 'swap', 'nestunpack',
                  'attr', 'lambdadef', 'scopechain', 'bareann', 'factory', 'recursion', 'kwcall',
-                 'docstring', 'mapfilter', 'forstar', 'augslice', 'methodstate', 'nestedclass', 'lazygen', 'leave2', 'private']
+                 'docstring', 'mapfilter', 'forstar', 'augslice', 'methodstate', 'nestedclass', 'lazygen', 'leave2', 'private', 'shadowbuiltins']
         if self.weights:
             kinds += [k for k, w in self.weights.items() for _ in range(w)]
         if sc.loop_depth:
@@ -682,6 +682,39 @@ class Gen:
             self.emit(ind + 1, f'inner_val = __In().get()')
         self.emit(ind, f'{o} = {K}({self.int_expr(sc)})')
         self.emit(ind, f"print({o}.run(), sorted(k for k in vars({K}) if not k.endswith('__')), sorted(vars({o})))")
+
+    def s_shadowbuiltins(self, sc, ind, depth):
+        """A function whose parameters / locals are spelled like the builtins that generated code calls."""
+        if sc.kind == 'class':
+            return self.s_assign(sc, ind, depth)
+        self.features.add('locals-spelled-like-builtins')
+        r = self.r
+        f = self.fresh('shb')
+        names = ['list', 'type', 'iter', 'next', 'setattr', 'tuple', 'slice', 'globals', 'locals', 'getattr', 'hasattr', 'super', 'classmethod']
+        r.shuffle(names)
+        p = names[:9]
+        self.emit(ind, f'def {f}({p[0]}, {p[1]}=1, *, {p[2]}=2, {p[3]}=3):')
+        self.emit(ind + 1, f'{p[4]} = {r.randint(1, 9)}')
+        self.emit(ind + 1, f'{p[5]}, *{p[6]} = [{p[0]}, {p[1]}, {p[2]}]')
+        self.emit(ind + 1, 'class Q:')
+        self.emit(ind + 2, f'z = {p[3]}')
+        self.emit(ind + 2, 'def m(self):')
+        self.emit(ind + 3, f'return {p[4]}')
+        self.emit(ind + 1, 'o = Q()')
+        self.emit(ind + 1, f'o.z += {p[4]}')
+        self.emit(ind + 1, 'l2 = [1, 2, 3]')
+        self.emit(ind + 1, f'l2[0:1] = [{p[5]}]')
+        self.emit(ind + 1, f'l2[1] += {p[4]}')
+        self.emit(ind + 1, f'for {p[7]} in [1, 2, 3]:')
+        self.emit(ind + 2, f'if {p[7]} == 2:')
+        self.emit(ind + 3, 'break')
+        self.emit(ind + 1, f'{p[8]} = 0')
+        self.emit(ind + 1, f'while {p[8]} < 2:')
+        self.emit(ind + 2, f'{p[8]} += 1')
+        self.emit(ind + 1, 'import os.path')
+        self.emit(ind + 1, 'from os import sep')
+        self.emit(ind + 1, f'return ({p[5]}, {p[6]}, o.z, o.m(), l2, {p[7]}, {p[8]}, os.path.basename("a/b"), sep)')
+        self.emit(ind, f'print({f}({r.randint(1, 9)}))')
 
     def s_nestedclass(self, sc, ind, depth):
         if sc.kind == 'class':
